@@ -635,6 +635,11 @@ def write_replay(pid, n, payload):
 def do_replay(pid, path, log):
     r = json.load(open(path))
     case = r.get('case')
+    if r.get('pair'):
+        from vprops import replay_pair
+        rc = replay_pair(r['pair'], log)
+        print('VIOLATION property=%s replay=%s' % (pid, path) if rc else 'the two cases take the same path')
+        return rc
     if not case:
         print('replay file names a proof obligation / correspondence, not an input:', r.get('what'))
         return 0
